@@ -250,9 +250,12 @@ def h_resp_cmdt(ex, prop, L, windows='sym', gap=None, limit=None):
 
 
 # --------------------------------------------------------------------------- BAM
-def h_orig_bam(ex, prop, L, interval=None, pdu2=True, eps_sym=True, other_interval=None):
+def h_orig_bam(ex, prop, L, interval=None, pdu2=True, eps_sym=True, other_interval=None, timer=None):
     c03, c09 = prop == 'C03', prop == 'C09'
     w, n, ca, rx = mk_world(ex, 1, bam_interval=interval, eps_sym=eps_sym, rts_cts_interval=other_interval)
+    if timer is not None:
+        # an unrelated periodic application timer served by the same job thread: the pacing must not depend on it
+        n.ecu.add_timer(Fraction(timer), lambda cookie: (w.callback_fired(), True)[1])
     dp, pf, ps, prio = pgn_inputs(ex, pdu2=pdu2)
     if not pdu2:
         ps = 255
